@@ -183,7 +183,7 @@ package http1
 //@ ghost var dnRespSeen bool
 
 //@ func HostClient.doNonNilReqResp(c, req, resp) retry, err
-//@   props C10
+//@   props C10, C11
 //@   abstract
 //@   noinline
 //@   panics
